@@ -39,7 +39,8 @@ RULE = (
     "packages, one-level component modifications) is parsed; each step applies one of deepcopy "
     "(of any tree: copies of copies; <= 4 trees), add_symbol (elementary or of a class type, "
     "optionally with an equation), remove_symbol, add/remove (initial) equation, add_class "
-    "(+ component of it elsewhere), remove_class to a drawn tree, biased to classes that others "
+    "(+ component of it elsewhere; by Class.add_class or, inside packages, by Tree.extend with a "
+    "'within' file in either direction), remove_class to a drawn tree, biased to classes that others "
     "reach through component types or extends, followed by flattening a drawn set of (tree, class) "
     "pairs (all / three / none) incl. classes that exist only in another tree.  non-trivial = after "
     "at least one deepcopy, an edit of class E in one tree is followed later by a flatten, in "
@@ -390,8 +391,22 @@ class World:
             pobj = tree if parent is None else self.locate(k, parent)
             data["classes"].append(jcopy(cdef))
             lib = self.lib(k)
-            new = parse_text(L.print_class(lib, cdef["id"])).classes[cdef["id"]]
-            pobj.add_class(new)
+            via = op[4] if len(op) > 4 else "add_class"
+            if via == "add_class":
+                new = parse_text(L.print_class(lib, cdef["id"])).classes[cdef["id"]]
+                pobj.add_class(new)
+            else:
+                # the class arrives as a second file "within P; model N .. end N;" merged with Tree.extend:
+                # either into the tree, or the tree into the new file's tree (whose P is only a placeholder)
+                other = parse_text("within %s;\n%s" % (".".join(lib.path(parent)), L.print_class(lib, cdef["id"])))
+                if via == "extend":
+                    tree.extend(other)
+                else:
+                    other.extend(tree)
+                    self.trees[k][0] = other
+                self.labels.add("add_class:via_%s" % via)
+                if via == "extended_by" and any(t[2] == k for t in self.trees):
+                    self.labels.add("add_class:via_extended_by_on_a_copied_tree")
             self.labels.add("add_class:in_%s" % ("root" if parent is None else lib.cls(parent)["kind"]))
             if cdef["extends"]:
                 self.labels.add("add_class:extends_existing")
@@ -767,6 +782,7 @@ def make_machine(ctx):
             if len(lib.data["classes"]) >= 12:
                 return
             parents = [None, None] + [c["id"] for c in lib.data["classes"] if c["kind"] in ("package", "model")]
+            parents += [c["id"] for c in lib.data["classes"] if c["kind"] == "package"] * 2
             parent = draw(st.sampled_from(parents))
             nid = self.name("N")
             cdef = {"id": nid, "parent": parent, "kind": "model", "extends": [], "comps": [], "eqs": [], "ieqs": []}
@@ -797,8 +813,15 @@ def make_machine(ctx):
                     cdef["eqs"].append([draw(st.sampled_from(refs)), draw(L.eq_expr(refs, 1))])
             if max_leaves(trial) > MAX_LEAVES:
                 return
-            if not self.do(["add_class", k, nid, cdef]):
+            via = "add_class"
+            if parent is not None and all(lib.cls(a)["kind"] == "package" for a in [parent] + lib.ancestors(parent)):
+                via = draw(st.sampled_from(["add_class", "extend", "extended_by", "extended_by"]))
+            if not self.do(["add_class", k, nid, cdef] + ([via] if via != "add_class" else [])):
                 return
+            if via != "add_class" and len(self.world.trees) < MAX_TREES and draw(st.integers(0, 2)) != 0:
+                # a merged tree is copied straight away, most of the time
+                if not self.do(["copy", k]):
+                    return
             # usually make an existing class depend on the new one
             lib = self.world.lib(k)
             hosts = [m for m in lib.models() if m != nid and nid in usable_types(lib, m)]
@@ -880,7 +903,7 @@ def replay(ctx, case):
 
 MANIFEST = dict(
     text="Stateful model-based search: up to four trees (a parsed generated library, deep copies, copies of "
-    "copies) are edited through the AST API (add/remove class, symbol, equation, initial equation) in "
+    "copies) are edited through the AST API (add/remove class - also by Tree.extend with a 'within' file - symbol, equation, initial equation) in "
     "drawn interleavings with deepcopy and flatten; each tree has an abstract model edited in lock-step, "
     "and flattening any class of any tree must agree with flattening a fresh parse of that tree's "
     "printed model (so edits are visible exactly in the tree they were made in, also through component "
